@@ -377,6 +377,14 @@ structure Config where
 /-- the hash lands in the table (the C code asserts it), and `parsec_hash_table_init` asserts `nb_bits ≥ 1` -/
 def Config.WF (c : Config) : Prop := 1 ≤ c.nb0 ∧ ∀ k nb, c.hf k nb < 2 ^ nb
 
+/-- the two key-function sets of the harness: 0 = `parsec_hash_table_generic_key_fn` (hash64 = key),
+    1 = `key_hash(k) = k >> 3` with a real `key_equal` -/
+def hfOf (hmode : Nat) : Nat → Nat → Nat :=
+  if hmode = 0 then fun k nb => rehash k nb else fun k nb => rehash (k >>> 3) nb
+
+def mkConfig (hmode : Nat) (hint maxb : Int) (nb0 : Nat) (progs : List (List Op)) : Config :=
+  { hf := hfOf hmode, hint := hint, maxb := maxb, nb0 := nb0, progs := progs }
+
 def blankTable : Table := { used := 0, next := 0, bkt := fun _ => {} }
 
 def init (c : Config) : State :=
